@@ -130,6 +130,15 @@ check("C05", "DESIGN.md 5/C05",
       "every result must equal the specification's matrix, hence all agree.",
       "Trusted: gamma including pyarrow.Table.from_pandas, alpha. Index labels are C06's business and are not compared here.")
 
+check("C08", "DESIGN.md 5/C08",
+      "TLA+ dtype table (MC_Dtypes over Materialize.tla) with a typing invariant model-checked in TLC; the finite table is fully enumerated "
+      "and replayed with every dtype constructor the installed libraries offer",
+      "TLC evaluates the expected matrix for a column of each of 22 dtype tags (text -> categorical with sorted levels, categorical dtype -> "
+      "declared order incl. unobserved levels, numeric incl. bool -> pass-through) and proves every expected cell is an integer; each case is "
+      "realised with all available constructors on the pandas materializer, narwhals on the same frame and narwhals on a pyarrow table, for "
+      "the three outputs: names and cells equal the model and every observed cell is a number.",
+      "Trusted: the constructor list probed at run time; 'a number' = numbers.Number / numpy.number / numpy.bool_ per cell.")
+
 NOT_YET = "check not yet built in this round (planned; see DESIGN.md section 5)"
 
 
